@@ -117,15 +117,15 @@ func runWorker(p *Property, tier string, seed int64, from, to int, out string, v
 type batch struct{ from, to, restarts int }
 
 type merged struct {
-	mu        sync.Mutex
-	evals     int64
-	counters  map[string]int64
-	distinct  map[string]struct{}
-	samples   []json.RawMessage
-	viols     []violation
-	inconcl   []string
-	workers   int
-	crashes   int
+	mu       sync.Mutex
+	evals    int64
+	counters map[string]int64
+	distinct map[string]struct{}
+	samples  []json.RawMessage
+	viols    []violation
+	inconcl  []string
+	workers  int
+	crashes  int
 }
 
 func drive(p *Property, tier string, seed int64, racebin string, verbose bool) int {
@@ -253,6 +253,7 @@ func runBatch(p *Property, tier string, seed int64, bin, tmp string, id int, b b
 	var lastBegin *Event
 	open := false
 	summary := false
+	aborted := -1
 	f, err := os.Open(evf)
 	if err == nil {
 		sc := bufio.NewScanner(f)
@@ -269,6 +270,9 @@ func runBatch(p *Property, tier string, seed int64, bin, tmp string, id int, b b
 				lastBegin = &ec
 				open = true
 			case "end":
+				open = false
+			case "abort":
+				aborted = e.ID
 				open = false
 			case "viol":
 				m.viols = append(m.viols, violation{Property: p.ID, Tier: tier, Seed: seed, Case: e.ID, Sig: e.Sig, Key: e.Key, Desc: e.Desc, Detail: e.Detail})
@@ -295,6 +299,9 @@ func runBatch(p *Property, tier string, seed int64, bin, tmp string, id int, b b
 	os.Remove(evf)
 	if summary && werr == nil {
 		os.Remove(errf)
+		if aborted >= 0 && aborted+1 < b.to && b.restarts < 200 {
+			return &batch{from: aborted + 1, to: b.to, restarts: b.restarts + 1}
+		}
 		return nil
 	}
 	// the worker died or hung
@@ -518,16 +525,16 @@ func report(p *Property, tier string, seed int64, m *merged, wall float64) int {
 	}
 
 	cov := map[string]interface{}{
-		"evaluations":         m.evals,
-		"distinct_nontrivial": len(m.distinct),
-		"rule":                p.Rule,
-		"samples":             m.samples,
-		"counters":            m.counters,
-		"workers":             m.workers,
-		"worker_deaths":       m.crashes,
-		"known_finding_hits":  nKnown,
+		"evaluations":                   m.evals,
+		"distinct_nontrivial":           len(m.distinct),
+		"rule":                          p.Rule,
+		"samples":                       m.samples,
+		"counters":                      m.counters,
+		"workers":                       m.workers,
+		"worker_deaths":                 m.crashes,
+		"known_finding_hits":            nKnown,
 		"distinct_violation_signatures": len(sigs),
-		"hooks_available":     HooksAvailable,
+		"hooks_available":               HooksAvailable,
 	}
 	if p.Extra != nil {
 		for k, v := range p.Extra(m.counters) {
